@@ -544,6 +544,7 @@ def namedPred (name : String) (k : Rat) (idset : List Id) (key val : String) : P
     | "nnz_ge" => decide ((((v.filter (· != 0)).length : Nat) : Rat) ≥ k)
     | "id_in" => idset.contains id
     | "md_eq" => (match md with | some m => m.lookup key == some val | none => false)
+    | "md_idx" => (match md with | some m => m.lookup key == some val | none => false)
     | "mix" => (idset.contains id) ^^ (decide (wsumR v > k))
     | _ => false
 
@@ -559,6 +560,16 @@ def asKeep (j : Json) : R (Keep Rat) := do
     let val ← strFD j "val" ""
     pure (.pred (namedPred name k idset key val))
   | s => .error s!"bad keep kind {s}"
+
+/-- a user predicate that reads `md[key]` WRITES `key ↦ None` into every entry that lacks the key (the entries
+are `defaultdict(lambda: None)`): the effect of the user's function on the metadata it is handed -/
+def touchEntry (key : String) (m : Md) : Md :=
+  if m.any (fun kv => kv.1 == key) then m
+  else (m.filter (fun kv => kv.1 < key)) ++ [(key, "null")] ++ (m.filter (fun kv => !(kv.1 < key)))
+
+def touchAxis (key : String) (t : Table Rat) : Axis → Table Rat
+  | .obs => { t with omd := t.omd.map (·.map (touchEntry key)) }
+  | .samp => { t with smd := t.smd.map (·.map (touchEntry key)) }
 
 def asResult (j : Json) : R (Except Err (Table Rat)) :=
   match optFld j "ok", optFld j "error" with
@@ -610,18 +621,29 @@ def lookupVerdict (oj : Json) (result : Except Err (Table Rat)) (after : Table R
   pure (Verdict.and v1 v2)
 
 def handleFilter (req : Json) : R Json := do
-  let t ← asTable (← fld req "t")
+  let t0 ← asTable (← fld req "t")
   let ax ← axisF req "axis"
-  let keep ← asKeep (← fld req "keep")
+  let keepJ ← fld req "keep"
+  let keep ← asKeep keepJ
   let invert ← boolF req "invert"
   let inplace ← boolF req "inplace"
-  let layout ← match optFld req "layout" with | some l => asCS l | none => pure (canonLayout t ax)
+  let layout ← match optFld req "layout" with | some l => asCS l | none => pure (canonLayout t0 ax)
   let oj ← fld req "obs"
   let calls ← listF asCall oj "calls"
   let rets ← listF (fun c => boolFD c "ret" false) oj "calls"
-  let obs : FilterObs Rat := {
+  let obs0 : FilterObs Rat := {
     result := (← asResult (← fld oj "result")), after := (← asTable (← fld oj "after")), calls := calls,
     viaIds := (← optF asResult oj "via_ids") }
+  -- a predicate that writes into the metadata it is handed (`effect_key`): everything is judged on the table as
+  -- the user's function leaves it, except that a COPYING call must leave the receiver itself untouched
+  let effect := optFld keepJ "effect_key"
+  let (t, obs, effV) ← match effect with
+    | some kj => do
+      let key ← asStr kj
+      let te := touchAxis key t0 ax
+      if inplace then pure (te, obs0, (none : Verdict))
+      else pure (te, { obs0 with after := te }, chk "receiver-untouched-by-copying-call" (eqb obs0.after t0))
+    | none => pure (t0, obs0, (none : Verdict))
   let emptyRaise := (← strFD req "empty_profile" "") == "raise"
   let bystanders ← match optFld oj "bystanders" with
     | some b => asList (fun j => do
@@ -634,7 +656,8 @@ def handleFilter (req : Json) : R Json := do
       pure (chk "argument-collection-untouched" (eqb (← asList asStr b) (← asList asStr a)))
     | _, _ => pure none
   let v := Verdict.and (Verdict.and (Verdict.and (verdictFilterP emptyRaise t ax keep invert inplace obs)
-    (← lookupVerdict oj obs.result obs.after)) (chk "bystander-tables-unchanged" (holdsBystanders bystanders))) argV
+    (← lookupVerdict oj obs.result obs0.after)) (chk "bystander-tables-unchanged" (holdsBystanders bystanders)))
+    (Verdict.and argV effV)
   let m0 := modelFilterObs t layout ax keep invert inplace
   let m := { m0 with result := (filterCallP emptyRaise t layout ax keep invert inplace).result }
   let agree := resEq m.result obs.result && m.after == obs.after && m.calls == obs.calls &&
